@@ -12,6 +12,14 @@ CLAIMED = {
          "DESIGN.md §3 C20"),
 }
 
+ "C04": ("The real FeeController.HandlePacket (attribute extraction and validation, ComputeFeesToDistribute, ComputeFeeAmount, total check, executeAction, destination update) is executed symbolically on a bank-ledger model for ALL amounts in [1,2^256), all uint32 bps, all fixed amounts (any integer, and non-numbers), lists of 0..N entries of mixed kinds with repeated / malformed recipients. Asserted per path: refusal iff one of the stated reasons (incl. both overflow kinds), nothing paid and nothing changed on refusal, each bps credit c satisfies 10000c <= A*bps < 10000(c+1), fixed credits exact, list order, recipients, forwarded = A - sum > 0. Non-linear integer queries decided by z3/cvc5; counterexamples replayed natively.",
+         "Bounds: 0..2 entries quick, 0..6 entries thorough (one past MaxFeeRecipients). Recipients are concrete strings (valid, repeated, malformed); bech32 decoding is the SDK's. math.Int is modelled as an SMT Int with the 2^256 limit; reference formulas use unbounded integers.",
+         "DESIGN.md §3 C04"),
+ "C18": ("The real middleware OnRecvPacket -> Adapter.BeforeTransferHook -> CheckPassthroughPayloadSize on the wired module (real keeper, real msg/query servers), after a symbolic parameter history (nothing stored / default genesis / genesis with any uint32 / 0..k UpdateParams with any uint32 by the authority or by someone else) and with a passthrough payload of symbolic length: refused with an error ack BEFORE the ICS-20 credit iff len > limit in force, otherwise the transfer completes; the Params query reports the limit in force.",
+         "Bounds: passthrough length 0..70000 quick / 0..5000000 thorough (all-zero content, only len is read), 0..2 / 0..3 parameter updates. Relative to the collections Item summary and the ICS-20 / bank models; a params read failure other than 'never written' is not modelled.",
+         "DESIGN.md §3 C18"),
+}
+
 NOT_APPLICABLE = {
  "C19": "Determinism across processes (map iteration order, pointer values, fmt reflection) does not exist in an SSA-to-SMT encoding: the encoding is a deterministic function by construction, so the assertion would be vacuous; DESIGN.md §4.",
 }
